@@ -256,6 +256,38 @@ def check_evaluators(h: Harness):
         os.unlink(path)
 
 
+def preset_scenario(h: Harness, rng):
+    """a user refinement that presets one field of the node it creates (`rec(base, initial_values={...})`, as the library's
+    context-passing example does): only THAT node takes the preset; a production further down with a like-named field of
+    another type is filled according to its own declaration.  (User metahandlers are outside the Lean grammar language:
+    judged by an independent walk over the dataclass fields.)"""
+    import ctxgrammar
+    from linear import DSGE, GE, SGE, safe
+    from geneticengine.random.sources import NativeRandomSource
+    from geneticengine.representations.tree.treebased import TreeBasedRepresentation
+    g = ctxgrammar.preset_grammar()
+    for trial in range(h.n(6, 40)):
+        r = NativeRandomSource(rng.randrange(10**6))
+        reps = [("tree", TreeBasedRepresentation(g, synth.make_decider(rng.choice(["grow", "pigrow", "full"]), 5, r, g))),
+                ("GE", GE(g, synth.make_decider("grow", 5, r, g), gene_length=64)),
+                ("SGE", SGE(g, synth.make_decider("grow", 5, r, g), gene_length=64)), ("DynamicSGE", DSGE(g, 5))]
+        for name, rep in reps:
+            st, geno = safe(lambda: rep.create_genotype(r))
+            for step in range(4):
+                if st != "ok":
+                    break
+                st2, p = safe(lambda: rep.genotype_to_phenotype(geno))
+                if st2 == "ok":
+                    h.count(f"preset:{name}")
+                    h.seen(f"preset:{name}:{trial}:{step}", nontrivial="Stroke" in repr(p))
+                    bad = ctxgrammar.preset_ill_typed(p)
+                    if bad:
+                        h.fail(f"{name}.genotype_to_phenotype" if name != "tree" else "TreeBasedRepresentation.create_genotype", "ill-typed-program",
+                               f"grammar with a refinement that presets Canvas.width: {bad[0]} ({len(bad)} ill-typed fields) in {repr(p)[:160]}", [name, trial, step])
+                        break
+                st, geno = safe(lambda: rep.mutate(r, geno))
+
+
 def corpus():
     """fixed witnesses of type shapes the generator only meets by luck: size-refined lists whose elements are lists /
     refined values / tuples / unions, nested wrappers"""
@@ -276,6 +308,7 @@ def corpus():
 def run(h: Harness):
     rng = h.rng
     check_evaluators(h)
+    preset_scenario(h, rng)
     retarget_scenario(h, rng)
     for spec in corpus():
         b = gram.build(spec)
